@@ -85,6 +85,9 @@ def c08_jobs(tier):
         for v in vecs:                       # single deviations from all-finite
             for alt in (None, ["-inf"], ["+inf"], ["nan"]):
                 add(1, _pat(1, **{v: alt}))
+        for x0 in (["-inf"], ["+inf"]):      # an infinite starting point in an unbounded problem
+            add(1, _pat(1, x0=x0, lb=["-inf"], ub=["+inf"]))
+            add(1, _pat(1, x0=x0, lb=None, ub=None))
         for x0 in (["s"], None, ["nan"]):    # unbounded / half bounded / defaults
             add(1, _pat(1, x0=x0, lb=["-inf"], ub=["+inf"]))
             add(1, _pat(1, x0=x0, lb=None, ub=None))
